@@ -418,7 +418,7 @@ class Gen:
             self.emit(ind, "sink(%s(func(q int) int { return q*q - %s }, %s & 7))" % (f, cap, self.expr(vs, 2)))
 
     def feature(self, ind, vs, k=None):
-        k = self.r.randrange(17) if k is None else k
+        k = self.r.randrange(21) if k is None else k
         a = self.expr(vs, 1)
         b = self.expr(vs, 1)
         if k == 0:
@@ -497,6 +497,18 @@ class Gen:
             self.emit(ind + 1, "k, arr[k] = 2, 50")
             self.emit(ind + 1, "sink(arr[0] + arr[2]*3 + k + x - y + z)")
             self.emit(ind, "}")
+        elif k == 20:
+            # variadic interface arguments, method value on interface, func returning funcs
+            self.emit(ind, "{")
+            self.emit(ind + 1, "var it I = V(%s & 15)" % a)
+            self.emit(ind + 1, "mv := it.M")
+            self.emit(ind + 1, "it = S{a: 7}")
+            self.emit(ind + 1, "adders := func(n int) (func(int) int, func() int) { c := n; return func(d int) int { c += d; return c }, func() int { return c } }")
+            self.emit(ind + 1, "ad, rd := adders(%s & 7)" % b)
+            self.emit(ind + 1, "ad(2)")
+            self.emit(ind + 1, "ad(3)")
+            self.emit(ind + 1, "sink(mv(1) + it.M(1)*3 + rd())")
+            self.emit(ind, "}")
         elif k == 9:
             # locals declared inside a loop body are fresh (zero) in every iteration
             i = self.fresh("i")
@@ -539,6 +551,79 @@ class Gen:
             self.emit(ind + 1, "var e1, e2 any = V(%s & 3), V(%s & 3)" % (a, b))
             self.emit(ind + 1, "var i1 I = V(1)")
             self.emit(ind + 1, "sink(q*3 + r + b2i(e1 == e2) + b2i(i1 == I(V(1)))*2 + b2i(e1 != nil)*4)")
+            self.emit(ind, "}")
+        elif k == 16:
+            # go statement: function value and arguments are evaluated at the go statement
+            self.emit(ind, "{")
+            self.emit(ind + 1, "ch := make(chan int, 4)")
+            self.emit(ind + 1, "x, y := %s & 255, %s & 255" % (a, b))
+            self.emit(ind + 1, "f := func(v int, w *int) { ch <- v*1000 + *w }")
+            self.emit(ind + 1, "go f(x, &y)")
+            self.emit(ind + 1, "r0 := <-ch")
+            self.emit(ind + 1, "x, f = 999, func(v int, w *int) { ch <- -1 }")
+            self.emit(ind + 1, "st := &S{a: x}")
+            self.emit(ind + 1, "go st.Inc(y & 7)")
+            self.emit(ind + 1, "go func() { ch <- x + 1 }()")
+            self.emit(ind + 1, "r1 := <-ch")
+            self.emit(ind + 1, "done := make(chan bool)")
+            self.emit(ind + 1, "go func(n int) { for i := 0; i < n; i++ { ch <- i }; close(ch); done <- true }(3)")
+            self.emit(ind + 1, "t := 0")
+            self.emit(ind + 1, "for v := range ch {")
+            self.emit(ind + 2, "t = t*10 + v + 1")
+            self.emit(ind + 1, "}")
+            self.emit(ind + 1, "<-done")
+            self.emit(ind + 1, "sink(r0 + r1*7 + t + b2i(st.a >= 999))")
+            self.emit(ind, "}")
+        elif k == 17:
+            self.emit(ind, "{")
+            self.emit(ind + 1, "c1, c2 := make(chan int, 1), make(chan int, 1)")
+            self.emit(ind + 1, "w := 0")
+            self.emit(ind + 1, "select {")
+            self.emit(ind + 1, "case v := <-c1:")
+            self.emit(ind + 2, "w = v")
+            self.emit(ind + 1, "default:")
+            self.emit(ind + 2, "w = -3")
+            self.emit(ind + 1, "}")
+            self.emit(ind + 1, "c2 <- %s & 63" % a)
+            self.emit(ind + 1, "select {")
+            self.emit(ind + 1, "case v := <-c1:")
+            self.emit(ind + 2, "w += v")
+            self.emit(ind + 1, "case v, ok := <-c2:")
+            self.emit(ind + 2, "w += v*2 + b2i(ok)")
+            self.emit(ind + 1, "}")
+            self.emit(ind + 1, "select {")
+            self.emit(ind + 1, "case c1 <- 5:")
+            self.emit(ind + 2, "w += 100")
+            self.emit(ind + 1, "case c2 <- 6:")
+            self.emit(ind + 2, "w += 100")
+            self.emit(ind + 1, "}")
+            self.emit(ind + 1, "sink(w + len(c1) + len(c2) + cap(c1))")
+            self.emit(ind, "}")
+        elif k == 18:
+            self.emit(ind, "{")
+            self.emit(ind + 1, 's := "h\u00e9llo" + string(rune(65+(%s&7)))' % a)
+            self.emit(ind + 1, "bs := []byte(s)")
+            self.emit(ind + 1, "bs[0] = 'H'")
+            self.emit(ind + 1, "rs := []rune(s)")
+            self.emit(ind + 1, 't := string(bs) + s[1:3] + string(rs[1:2])')
+            self.emit(ind + 1, 'sink(len(s) + len(rs)*10 + len(t)*100 + int(s[1]) + b2i(s < t)*1000 + b2i(t == "x") + b2i(s[:2] == "h\xc3")*3)')
+            self.emit(ind, "}")
+        elif k == 19:
+            self.emit(ind, "{")
+            self.emit(ind + 1, "m := map[int]int{}")
+            self.emit(ind + 1, "for q := 0; q < 20; q++ {")
+            self.emit(ind + 2, "m[q*(%s&3+1)%%7] += q" % a)
+            self.emit(ind + 1, "}")
+            self.emit(ind + 1, "delete(m, 3)")
+            self.emit(ind + 1, "t, n := 0, 0")
+            self.emit(ind + 1, "for kk, vv := range m {")
+            self.emit(ind + 2, "t += kk*31 + vv")
+            self.emit(ind + 2, "n++")
+            self.emit(ind + 1, "}")
+            self.emit(ind + 1, "_, ok := m[3]")
+            self.emit(ind + 1, 'ms := map[string][]int{"a": {1}, "b": nil}')
+            self.emit(ind + 1, 'ms["a"] = append(ms["a"], %s & 7)' % b)
+            self.emit(ind + 1, 'sink(t + n*1000 + len(m) + b2i(ok) + len(ms["a"])*7 + ms["a"][1] + len(ms["zz"]))')
             self.emit(ind, "}")
         elif k == 15:
             # shadowing and block scopes
@@ -650,7 +735,7 @@ def gen_program(seed, nfuncs=12, arr_mut=True):
         g.function(i)
     # every feature snippet once, so that no language feature depends on the dice
     g.emit(0, "func tour(p0, p1 int) (res int) {")
-    for k in range(17):
+    for k in range(21):
         g.feature(1, ["p0", "p1"], k)
     g.emit(1, "return p0 ^ p1")
     g.emit(0, "}")
